@@ -14,7 +14,7 @@ EXPLANATION = (
     "rejecting mismatch edge. R03.4 script-switch epilogue (shared with C01 R01.5). R03.5 the P2SH redeem-script continuation exists "
     "only for SigVersion::BASE and only with the P2SH flag (every definition of is_p2sh carries both conjuncts). R03.6 agreement with "
     "the batch twin VerifyWitnessProgram on program sizes, the annex rule and the validation-weight initialiser. That a finished "
-    "session equals consensus validity is NOT decided.")
+    "session equals consensus validity is NOT decided. R03.10: CheckLockTime / CheckSequence never narrow their 5-byte operand through the saturating CScriptNum::getint() outside log calls.")
 TRUSTED = ["clang 14 parser/Sema/CFG", "/verif extractor"]
 ASSUMPTIONS = ["the debugger leaves final-stack truthiness / clean-stack judgement to the user (not modelled)"]
 DECLINED = ["equality of the finished session with consensus validity", "SIGPUSHONLY, witness-malleation and unexpected-witness rules (not modelled by the debugger)"]
